@@ -598,7 +598,7 @@ func TestVerifC19(t *testing.T) {
 		// in the normal run
 		if len(c.Forms) == 1 && c.Wrapper == c19WStraight {
 			f := c19FormByName[c.Forms[0]]
-			if f.Mut && !f.NoMut {
+			if f.Mut && !f.NoMut && !f.NoEffect {
 				if !j.NormMutated {
 					rec.HarnessError("vacuous: mutating form %s at %s changed nothing in the normal run: %v", f.Name, c.Locs, j.Norm.Results)
 				} else {
